@@ -86,8 +86,10 @@ def gen_cases(tier, seed):
             if which == "file":
                 srcs, dest = ["v0"], "v0"
             elif which == "dir":
-                spec.append({"p": "adir", "k": "d"})
-                srcs, dest = ["adir"], "adir"
+                # the directory itself, also through another spelling or a symbolic link
+                spec += [{"p": "adir", "k": "d"}, {"p": "adir/inner", "k": "d"}, {"p": "adir/inner/x", "k": "f", "size": 4, "seed": 2, "segs": None},
+                         {"p": "ldir", "k": "l", "target": "adir"}]
+                srcs, dest = [r.choice(["adir", "adir", "./adir", "adir/"])], r.choice(["adir", "./adir", "adir/", "@ROOT@/adir", "ldir", "adir/../adir", "ldir/"])
             else:
                 spec.append({"p": "adir", "k": "d"})
                 spec.append({"p": "adir/v0", "k": "f", "size": 4, "seed": 2, "segs": None})
@@ -133,7 +135,7 @@ def gen_cases(tier, seed):
             srcs.insert(pos, "ldir")
             opts = []
         elif cls == "bad-blocksize":
-            opts += ["--block-size", r.choice(["12XB", "-5", "abc"])]
+            opts += ["--block-size", r.choice(["12XB", "-5", "abc", "0", "0", "0KB"])]
         pre = []
         if dstate == "file":
             pre.append({"p": "dst", "k": "f", "size": 8, "seed": 5, "segs": None})
@@ -165,7 +167,7 @@ def run_case(case):
         tree.materialize(root, case["spec"])
         tree.materialize(root, case["pre"])
         pre = tree.snapshot(root)
-        run = core.run_xcp(sb, case["args"], {"log_mode": "full"})
+        run = core.run_xcp(sb, [a.replace("@ROOT@", root) for a in case["args"]], {"log_mode": "full"})
         if run.verdict != "exited":
             res["inconc"].append("run-" + run.verdict)
             return res
